@@ -476,19 +476,7 @@ func (c *Ctx) ruleOrderSignOnly() {
 	c.orderIn(fn, func(call ssa.CallInstruction) bool {
 		callee := ir.Callee(call)
 		return callee != nil && c.reachesSigner(callee)
-	}, func(i ssa.Instruction) bool {
-		switch x := i.(type) {
-		case *ssa.Store:
-			return ir.RootOf(x.Addr) == ssa.Value(fn.Params[0])
-		case ssa.CallInstruction:
-			callee := ir.Callee(x)
-			if callee == nil || !c.P.InLib(callee) || len(x.Common().Args) == 0 {
-				return false
-			}
-			return ir.RootOf(x.Common().Args[0]) == ssa.Value(fn.Params[0]) && c.writesReceiver(callee)
-		}
-		return false
-	}, "mutation of the image object")
+	}, c.receiverMutation(fn), "mutation of the image object")
 	// the digest signed is the hash content of this image
 	var sa *ssa.Call
 	instrsOf(fn, func(i ssa.Instruction) {
